@@ -158,6 +158,121 @@ Proof.
   exists out. split; [reflexivity|]. intros. cbn [parse]. apply Hp. assumption.
 Qed.
 
+(* ---- members CHOSEN by a known field: Switch(this.k, {...}, default) and IfThenElse(this.k, a, b) ---- *)
+Lemma eval_this_val cx G n z : knows cx G -> In (n, z) G -> exists w, eval cx (this_ n) = Ok w /\ int_of_val w = Some z.
+Proof.
+  intros [Hs Hk] Hin. destruct (Hk n z Hin) as (w & Hl & Hw). exists w. split; [|exact Hw].
+  unfold eval, this_, ctx_vals in *. destruct (c_scopes cx) as [|s t] eqn:Es; [contradiction|].
+  cbn [eval_cur bind item]. unfold item_scope. rewrite Es. cbn [nth_error]. rewrite Hl. cbn [bind cur_val].
+  destruct w; try discriminate Hw; reflexivity.
+Qed.
+
+Lemma int_val_eqb w z v : int_of_val w = Some z -> val_eqb w v = val_eqb (VInt z) v.
+Proof.
+  destruct w; try discriminate; cbn [int_of_val]; intros E; injection E as <-; try reflexivity.
+  destruct v; cbn [val_eqb]; try reflexivity; [destruct b, b0; reflexivity|apply Z.eqb_sym].
+Qed.
+Lemma int_truthy w z : int_of_val w = Some z -> truthy w = truthy (VInt z).
+Proof. destruct w; try discriminate; cbn [int_of_val]; intros E; injection E as <-; try reflexivity. destruct b; reflexivity. Qed.
+Lemma int_hashable w z : int_of_val w = Some z -> hashable w = true.
+Proof. destruct w; try discriminate; reflexivity. Qed.
+
+Lemma RTG_ite G n a b : (exists z, In (n, z) G) -> RTG G a -> RTG G b -> RTG G (CIfThenElse (this_ n) a b).
+Proof.
+  intros (z & Hin) Ha Hb0 v cxb pb o r o' Ho Hk Hb. cbn [build] in Hb.
+  destruct (eval_this_val _ _ _ _ Hk Hin) as (w & Ew & Hw). rewrite Ew in Hb. cbn [bind] in Hb. rewrite (int_truthy _ _ Hw) in Hb.
+  assert (Par : forall cxp pp s, knows cxp G -> parse (CIfThenElse (this_ n) a b) cxp pp s = if truthy (VInt z) then parse a cxp pp s else parse b cxp pp s).
+  { intros cxp pp s Hkp. cbn [parse]. destruct (eval_this_val _ _ _ _ Hkp Hin) as (w' & Ew' & Hw'). rewrite Ew'. cbn [bind]. rewrite (int_truthy _ _ Hw'). reflexivity. }
+  destruct (truthy (VInt z)).
+  - destruct (Ha v cxb pb o r o' Ho Hk Hb) as (out & -> & Hp). exists out. split; [reflexivity|]. intros cxp pp pre rest base sk Hkp. rewrite Par by exact Hkp. apply Hp, Hkp.
+  - destruct (Hb0 v cxb pb o r o' Ho Hk Hb) as (out & -> & Hp). exists out. split; [reflexivity|]. intros cxp pp pre rest base sk Hkp. rewrite Par by exact Hkp. apply Hp, Hkp.
+Qed.
+
+(* the branch a Switch on a known field takes: the same one when building and when parsing *)
+Lemma switch_pick G n z cases d v cxb pb o r o' : In (n, z) G -> knows cxb G ->
+  build (CSwitch (this_ n) cases d) v cxb pb o = Ok (r, o') ->
+  exists c', (c' = d \/ In c' (map snd cases)) /\ build c' v cxb pb o = Ok (r, o') /\
+    forall cxp pp s, knows cxp G -> parse (CSwitch (this_ n) cases d) cxp pp s = parse c' cxp pp s.
+Proof.
+  intros Hin Hk Hb. cbn [build] in Hb.
+  destruct (eval_this_val _ _ _ _ Hk Hin) as (w & Ew & Hw). rewrite Ew in Hb. cbn [bind] in Hb.
+  rewrite (int_hashable _ _ Hw) in Hb. cbn [negb] in Hb.
+  revert Hb. induction cases as [|[kv c'] t IH]; intros Hb.
+  - exists d. split; [left; reflexivity|]. split; [exact Hb|]. intros cxp pp s Hkp. cbn [parse].
+    destruct (eval_this_val _ _ _ _ Hkp Hin) as (w' & Ew' & Hw'). rewrite Ew'. cbn [bind]. rewrite (int_hashable _ _ Hw'). reflexivity.
+  - destruct (val_eqb w kv) eqn:E.
+    + exists c'. split; [right; left; reflexivity|]. split; [exact Hb|]. intros cxp pp s Hkp. cbn [parse].
+      destruct (eval_this_val _ _ _ _ Hkp Hin) as (w' & Ew' & Hw'). rewrite Ew'. cbn [bind]. rewrite (int_hashable _ _ Hw'). cbn [negb].
+      rewrite (int_val_eqb _ _ kv Hw'), <- (int_val_eqb _ _ kv Hw), E. reflexivity.
+    + destruct (IH Hb) as (c0 & H0 & B0 & P0). exists c0. split; [destruct H0 as [H0|H0]; [left; exact H0|right; right; exact H0]|].
+      split; [exact B0|]. intros cxp pp s Hkp.
+      rewrite <- (P0 cxp pp s Hkp). cbn [parse].
+      destruct (eval_this_val _ _ _ _ Hkp Hin) as (w' & Ew' & Hw'). rewrite Ew'. cbn [bind]. rewrite (int_hashable _ _ Hw'). cbn [negb].
+      rewrite (int_val_eqb _ _ kv Hw'), <- (int_val_eqb _ _ kv Hw), E. reflexivity.
+Qed.
+
+Lemma ite_pick G n z a b v cxb pb o r o' : In (n, z) G -> knows cxb G ->
+  build (CIfThenElse (this_ n) a b) v cxb pb o = Ok (r, o') ->
+  exists c', (c' = a \/ c' = b) /\ build c' v cxb pb o = Ok (r, o') /\
+    forall cxp pp s, knows cxp G -> parse (CIfThenElse (this_ n) a b) cxp pp s = parse c' cxp pp s.
+Proof.
+  intros Hin Hk Hb. cbn [build] in Hb.
+  destruct (eval_this_val _ _ _ _ Hk Hin) as (w & Ew & Hw). rewrite Ew in Hb. cbn [bind] in Hb. rewrite (int_truthy _ _ Hw) in Hb.
+  assert (Par : forall cxp pp s, knows cxp G -> parse (CIfThenElse (this_ n) a b) cxp pp s = if truthy (VInt z) then parse a cxp pp s else parse b cxp pp s).
+  { intros cxp pp s Hkp. cbn [parse]. destruct (eval_this_val _ _ _ _ Hkp Hin) as (w' & Ew' & Hw'). rewrite Ew'. cbn [bind]. rewrite (int_truthy _ _ Hw'). reflexivity. }
+  destruct (truthy (VInt z)); [exists a|exists b]; (split; [auto|]; split; [exact Hb|exact Par]).
+Qed.
+
+(* ... as a function of the field's integer value *)
+Fixpoint pick (z : Z) (cases : list (val * con)) (d : con) : con :=
+  match cases with [] => d | (kv, c') :: t => if val_eqb (VInt z) kv then c' else pick z t d end.
+
+Lemma pick_in z cases d : pick z cases d = d \/ In (pick z cases d) (map snd cases).
+Proof.
+  induction cases as [|[kv c'] t IH]; [left; reflexivity|]. cbn [pick map snd]. destruct (val_eqb (VInt z) kv); [right; left; reflexivity|].
+  destruct IH as [IH|IH]; [left; exact IH|right; right; exact IH].
+Qed.
+
+Lemma build_switch G n z cases d cx : knows cx G -> In (n, z) G ->
+  forall v p o, build (CSwitch (this_ n) cases d) v cx p o = build (pick z cases d) v cx p o.
+Proof.
+  intros Hk Hin v p o. cbn [build]. destruct (eval_this_val _ _ _ _ Hk Hin) as (w & Ew & Hw). rewrite Ew. cbn [bind].
+  rewrite (int_hashable _ _ Hw). cbn [negb].
+  induction cases as [|[kv c'] t IH]; [reflexivity|]. cbn [pick]. rewrite (int_val_eqb _ _ kv Hw). destruct (val_eqb (VInt z) kv); [reflexivity|exact IH].
+Qed.
+
+Lemma parse_switch G n z cases d cx : knows cx G -> In (n, z) G ->
+  forall p s, parse (CSwitch (this_ n) cases d) cx p s = parse (pick z cases d) cx p s.
+Proof.
+  intros Hk Hin p s. cbn [parse]. destruct (eval_this_val _ _ _ _ Hk Hin) as (w & Ew & Hw). rewrite Ew. cbn [bind].
+  rewrite (int_hashable _ _ Hw). cbn [negb].
+  induction cases as [|[kv c'] t IH]; [reflexivity|]. cbn [pick]. rewrite (int_val_eqb _ _ kv Hw). destruct (val_eqb (VInt z) kv); [reflexivity|exact IH].
+Qed.
+
+Lemma build_ite G n z a b cx : knows cx G -> In (n, z) G ->
+  forall v p o, build (CIfThenElse (this_ n) a b) v cx p o = build (if truthy (VInt z) then a else b) v cx p o.
+Proof.
+  intros Hk Hin v p o. cbn [build]. destruct (eval_this_val _ _ _ _ Hk Hin) as (w & Ew & Hw). rewrite Ew. cbn [bind].
+  rewrite (int_truthy _ _ Hw). destruct (truthy (VInt z)); reflexivity.
+Qed.
+
+Lemma parse_ite G n z a b cx : knows cx G -> In (n, z) G ->
+  forall p s, parse (CIfThenElse (this_ n) a b) cx p s = parse (if truthy (VInt z) then a else b) cx p s.
+Proof.
+  intros Hk Hin p s. cbn [parse]. destruct (eval_this_val _ _ _ _ Hk Hin) as (w & Ew & Hw). rewrite Ew. cbn [bind].
+  rewrite (int_truthy _ _ Hw). destruct (truthy (VInt z)); reflexivity.
+Qed.
+
+Lemma RTG_switch G n cases d : (exists z, In (n, z) G) -> Forall (fun vc => RTG G (snd vc)) cases -> RTG G d -> RTG G (CSwitch (this_ n) cases d).
+Proof.
+  intros (z & Hin) Hcs Hd v cxb pb o r o' Ho Hk Hb.
+  destruct (switch_pick G n z cases d v cxb pb o r o' Hin Hk Hb) as (c' & Hc & Bc & Pc).
+  assert (Hc' : RTG G c').
+  { destruct Hc as [->|Hc]; [exact Hd|]. apply in_map_iff in Hc as (vc & <- & Hvc). rewrite Forall_forall in Hcs. apply Hcs, Hvc. }
+  destruct (Hc' v cxb pb o r o' Ho Hk Bc) as (out & -> & Hp).
+  exists out. split; [reflexivity|]. intros cxp pp pre rest base sk Hkp. rewrite Pc by exact Hkp. apply Hp, Hkp.
+Qed.
+
 (* ---- the member list of a dependent struct ---- *)
 Inductive dmem : list name -> list con -> Prop :=
 | dm_nil Gn : dmem Gn []
@@ -264,6 +379,38 @@ Qed.
 (* ---- the syntactic fragment: frag with dependent structs, closed under the same wrappers ---- *)
 Definition memb (n : name) (l : list name) : bool := existsb (name_eqb n) l.
 
+(* the member checks, over the fragment test D for nested constructs (D is [dfrag false] below) *)
+Section Members.
+  Variable D : con -> bool.
+  (* a member sized by one of the integer fields G defined before it *)
+  Definition szb0_ (G : list name) (x : con) : bool :=
+    match x with
+    | CBytes (XItem (XRoot RThis) (KName k)) => memb k G
+    | CArray (XItem (XRoot RThis) (KName k)) el => memb k G && D el
+    | CPadded (XItem (XRoot RThis) (KName k)) el _ => memb k G && D el
+    | CFixedSized (XItem (XRoot RThis) (KName k)) el => memb k G && D el
+    | _ => false
+    end.
+  Definition brk_ (G : list name) (x : con) : bool := szb0_ G x || D x.
+  (* ... or chosen by one: Switch(this.k, {..}, default), IfThenElse(this.k, a, b) with branches that are sized or closed *)
+  Definition szb_ (G : list name) (x : con) : bool :=
+    szb0_ G x ||
+    match x with
+    | CSwitch (XItem (XRoot RThis) (KName k)) cases d => memb k G && forallb (fun vc => brk_ G (snd vc)) cases && brk_ G d
+    | CIfThenElse (XItem (XRoot RThis) (KName k)) a b => memb k G && brk_ G a && brk_ G b
+    | _ => false
+    end.
+  Definition strip (m : con) : con := match m with CRenamed _ c' => c' | _ => m end.
+  Definition memok_ (G : list name) (m : con) : bool := szb_ G (strip m) || D (strip m).
+  Definition def_name (m : con) : option name :=
+    match m with CRenamed n c' => if int_leaf c' then Some n else None | _ => None end.
+  Fixpoint dgo_ (G : list name) (ms : list con) {struct ms} : bool :=
+    match ms with
+    | [] => true
+    | m :: t => match def_name m with Some n => dgo_ (n :: G) t | None => memok_ G m && dgo_ G t end
+    end.
+End Members.
+
 Fixpoint dfrag (e : bool) (c : con) {struct c} : bool :=
   match c with
   | CFormat _ f => negb (fcode_float f)
@@ -274,25 +421,7 @@ Fixpoint dfrag (e : bool) (c : con) {struct c} : bool :=
   | CRenamed _ c' => dfrag e c'
   | CConst (VInt _) c' => int_leaf c'
   | CConst (VBytes d) (CBytes (XConst (VInt n))) => (n =? Z.of_nat (length d))%Z
-  | CStruct cs =>
-      nodupb (names cs) &&
-      (fix go (G : list name) (ms : list con) {struct ms} : bool :=
-         let szb := fun x : con =>
-           match x with
-           | CBytes (XItem (XRoot RThis) (KName k)) => memb k G
-           | CArray (XItem (XRoot RThis) (KName k)) el => memb k G && dfrag false el
-           | CPadded (XItem (XRoot RThis) (KName k)) el _ => memb k G && dfrag false el
-           | CFixedSized (XItem (XRoot RThis) (KName k)) el => memb k G && dfrag false el
-           | _ => false
-           end in
-         match ms with
-         | [] => true
-         | m :: t =>
-             match m with
-             | CRenamed n c' => if int_leaf c' then go (n :: G) t else (szb c' || dfrag false c') && go G t
-             | _ => (szb m || dfrag false m) && go G t
-             end
-         end) [] cs
+  | CStruct cs => nodupb (names cs) && dgo_ (dfrag false) [] cs
   | CSequence cs => forallb (dfrag false) cs
   | CArray (XConst (VInt n)) c' => (0 <=? n)%Z && dfrag false c'
   | CPrefixed lc c' false => int_leaf lc && dfrag true c'
@@ -302,33 +431,23 @@ Fixpoint dfrag (e : bool) (c : con) {struct c} : bool :=
   | _ => false
   end.
 
-(* a member sized by one of the integer fields G defined before it *)
-Definition szb (G : list name) (x : con) : bool :=
-  match x with
-  | CBytes (XItem (XRoot RThis) (KName k)) => memb k G
-  | CArray (XItem (XRoot RThis) (KName k)) el => memb k G && dfrag false el
-  | CPadded (XItem (XRoot RThis) (KName k)) el _ => memb k G && dfrag false el
-  | CFixedSized (XItem (XRoot RThis) (KName k)) el => memb k G && dfrag false el
-  | _ => false
-  end.
-Definition memok (G : list name) (m : con) : bool :=
-  match m with CRenamed _ c' => szb G c' || dfrag false c' | _ => szb G m || dfrag false m end.
+Definition szb0 := szb0_ (dfrag false).
+Definition brk := brk_ (dfrag false).
+Definition szb := szb_ (dfrag false).
+Definition memok := memok_ (dfrag false).
+Definition dgo := dgo_ (dfrag false).
 
-Fixpoint dgo (G : list name) (ms : list con) {struct ms} : bool :=
-  match ms with
-  | [] => true
-  | m :: t =>
-      match m with
-      | CRenamed n c' => if int_leaf c' then dgo (n :: G) t else memok G m && dgo G t
-      | _ => memok G m && dgo G t
-      end
-  end.
+Lemma szb0_szb G x : szb0 G x = true -> szb G x = true.
+Proof. unfold szb, szb0, szb_. intros ->. reflexivity. Qed.
 
 Lemma dfrag_struct e cs : dfrag e (CStruct cs) = nodupb (names cs) && dgo [] cs.
-Proof.
-  cbn [dfrag]. f_equal. generalize (@nil name) as G. induction cs as [|m t IH]; intros G; [reflexivity|].
-  cbn [dgo]. destruct m; try (rewrite <- IH; reflexivity). destruct (int_leaf m); rewrite <- IH; reflexivity.
-Qed.
+Proof. reflexivity. Qed.
+Lemma dgo_cons G m t : dgo G (m :: t) = match def_name m with Some n => dgo (n :: G) t | None => memok G m && dgo G t end.
+Proof. reflexivity. Qed.
+Lemma memok_eq G m : memok G m = szb G (strip m) || dfrag false (strip m).
+Proof. reflexivity. Qed.
+Lemma def_name_some m n : def_name m = Some n -> exists c', m = CRenamed n c' /\ int_leaf c' = true.
+Proof. destruct m; try discriminate. cbn [def_name]. destruct (int_leaf m) eqn:E; [|discriminate]. intros H. injection H as <-. eauto. Qed.
 
 Lemma dfrag_not_stopif e c : dfrag e c = true -> is_stopif c = false.
 Proof. destruct c; try reflexivity; try discriminate. cbn [dfrag is_stopif]. destruct c; try reflexivity. discriminate. Qed.
@@ -360,15 +479,20 @@ Qed.
 
 Lemma dgo_dmem : forall ms, Forall MEM ms -> forall G, dgo G ms = true -> dmem G ms.
 Proof.
-  induction 1 as [|m t Hm Ht IH]; intros G Hg; [constructor|]. cbn [dgo] in Hg.
-  assert (Use : memok G m && dgo G t = true -> dmem G (m :: t)).
-  { intros Hu. apply andb_prop in Hu as [H1 H2]. destruct (Hm G H1) as [Hs Hr]. apply dm_use; [exact Hr|exact Hs|apply IH, H2]. }
-  destruct m; try (apply Use; exact Hg).
-  destruct (int_leaf m) eqn:El; [|apply Use; exact Hg].
-  apply dm_def; [apply RTi2_of_int_leaf, El|destruct m; try discriminate El; reflexivity|apply IH, Hg].
+  induction 1 as [|m t Hm Ht IH]; intros G Hg; [constructor|]. rewrite dgo_cons in Hg.
+  destruct (def_name m) as [n|] eqn:Ed.
+  - destruct (def_name_some m n Ed) as (c' & -> & El).
+    apply dm_def; [apply RTi2_of_int_leaf, El|destruct c'; try discriminate El; reflexivity|apply IH, Hg].
+  - apply andb_prop in Hg as [H1 H2]. destruct (Hm G H1) as [Hs Hr]. apply dm_use; [exact Hr|exact Hs|apply IH, H2].
 Qed.
 
 Definition PD (c : con) : Prop := (dfrag false c = true -> RT c) /\ (dfrag true c = true -> RTe c) /\ SZ c /\ MEM c.
+
+Lemma brk_RTG c Gn Gv : PD c -> brk Gn c = true -> map fst Gv = Gn -> RTG Gv c.
+Proof.
+  intros (I1 & _ & I3 & _) Hb HG. unfold brk, brk_ in Hb. apply orb_prop in Hb as [Hb|Hb];
+    [apply (I3 Gn (szb0_szb _ _ Hb) Gv HG)|apply RTG_of_RT, I1, Hb].
+Qed.
 
 Theorem dep_roundtrip : forall c, PD c.
 Proof.
@@ -385,7 +509,7 @@ Proof.
   - apply Both; [intros; discriminate| |reflexivity|apply NoSZ; reflexivity]. intros _. apply RT_zigzag.
   - (* Bytes *) apply Both; [intros; discriminate| |reflexivity|].
     + intros Hfr. cbn in Hfr. destruct a0; try discriminate. destruct v; try discriminate. apply RT_bytes. lia.
-    + intros Gn Hm Gv HG. cbn [szb] in Hm. destruct a0 as [| |a0 k|v| | |]; try discriminate Hm.
+    + intros Gn Hm Gv HG. unfold szb, szb_ in Hm. rewrite orb_false_r in Hm. cbn [szb0_] in Hm. destruct a0 as [| |a0 k|v| | |]; try discriminate Hm.
       destruct a0 as [[]| | | | | |]; try discriminate Hm. destruct k as [k|]; try discriminate Hm.
       apply (RTG_sized Gv k _ CBytes); [apply sz_bytes|]. apply memb_in. rewrite HG. exact Hm.
   - (* GreedyBytes *) split; [intros Hfr; discriminate|]. split; [intros _; apply RTe_greedybytes|]. split; [apply NoSZ; reflexivity|].
@@ -398,10 +522,22 @@ Proof.
   - (* Sequence *) apply Both; [intros; discriminate| |reflexivity|apply NoSZ; reflexivity]. intros Hfr. cbn [dfrag] in Hfr.
     apply RT_sequence; [|apply dfrag_no_stopif; exact Hfr].
     rewrite Forall_forall in H |- *. intros c Hin. apply (H c Hin). rewrite forallb_forall in Hfr. apply Hfr, Hin.
+  - (* IfThenElse on a known field *) apply Both; [intros; discriminate|intros Hfr; discriminate Hfr|reflexivity|].
+    intros Gn Hm Gv HG. unfold szb, szb_ in Hm. cbn [szb0_ orb] in Hm.
+    destruct a0 as [| |a0 k|v| | |]; try discriminate Hm. destruct a0 as [[]| | | | | |]; try discriminate Hm. destruct k as [k|]; try discriminate Hm.
+    apply andb_prop in Hm as [Hm Hb2]. apply andb_prop in Hm as [Hk Hb1].
+    apply RTG_ite; [apply memb_in; rewrite HG; exact Hk|apply (brk_RTG _ Gn); assumption|apply (brk_RTG _ Gn); assumption].
+  - (* Switch on a known field *) apply Both; [intros; discriminate|intros Hfr; discriminate Hfr|reflexivity|].
+    intros Gn Hm Gv HG. unfold szb, szb_ in Hm. cbn [szb0_ orb] in Hm.
+    destruct a0 as [| |a0 k|v| | |]; try discriminate Hm. destruct a0 as [[]| | | | | |]; try discriminate Hm. destruct k as [k|]; try discriminate Hm.
+    apply andb_prop in Hm as [Hm Hb2]. apply andb_prop in Hm as [Hk Hb1].
+    apply RTG_switch; [apply memb_in; rewrite HG; exact Hk| |apply (brk_RTG _ Gn); assumption].
+    rewrite Forall_forall in H |- *. intros vc Hin. apply (brk_RTG _ Gn); [apply H, Hin| |exact HG].
+    rewrite forallb_forall in Hb1. apply Hb1, Hin.
   - (* Array *) destruct IHc as (I1 & _ & _ & _). apply Both; [intros; discriminate| |intros e; destruct a0 as [| | |v| | |]; try reflexivity; destruct v; reflexivity|].
     + intros Hfr. cbn [dfrag] in Hfr. destruct a0; try discriminate. destruct v; try discriminate.
       apply andb_prop in Hfr as [Hn Hc]. apply RT_array; [lia|]. apply I1, Hc.
-    + intros Gn Hm Gv HG. cbn [szb] in Hm. destruct a0 as [| |a0 k|v| | |]; try discriminate Hm.
+    + intros Gn Hm Gv HG. unfold szb, szb_ in Hm. rewrite orb_false_r in Hm. cbn [szb0_] in Hm. destruct a0 as [| |a0 k|v| | |]; try discriminate Hm.
       destruct a0 as [[]| | | | | |]; try discriminate Hm. destruct k as [k|]; try discriminate Hm.
       apply andb_prop in Hm as [Hk Hc].
       apply (RTG_sized Gv k _ (fun x => CArray x c)); [apply sz_array, I1, Hc|]. apply memb_in. rewrite HG. exact Hk.
@@ -409,7 +545,7 @@ Proof.
     + intros Hfr. cbn [dfrag] in Hfr. apply RT_renamed, I1, Hfr.
     + intros Hfr. cbn [dfrag] in Hfr. apply RTe_renamed, I2, Hfr.
     + apply NoSZ. reflexivity.
-    + intros Gn Hm. cbn [memok] in Hm. apply orb_prop in Hm as [Hm|Hm].
+    + intros Gn Hm. rewrite memok_eq in Hm. cbn [strip] in Hm. apply orb_prop in Hm as [Hm|Hm].
       * split; [pose proof (szb_not_stopif _ _ Hm); destruct c; try reflexivity; discriminate|].
         intros Gv HG. apply RTG_renamed, (I3 Gn Hm Gv HG).
       * split; [pose proof (dfrag_not_stopif _ _ Hm); destruct c; try reflexivity; discriminate|].
@@ -421,7 +557,7 @@ Proof.
   - (* Padded *) destruct IHc as (I1 & _ & _ & _). apply Both; [intros; discriminate| |intros e; destruct a0 as [| | |v| | |]; try reflexivity; destruct v; reflexivity|].
     + intros Hfr. cbn [dfrag] in Hfr. destruct a0; try discriminate. destruct v; try discriminate.
       apply andb_prop in Hfr as [Hn Hc]. apply RT_padded; [lia|]. apply I1, Hc.
-    + intros Gn Hm Gv HG. cbn [szb] in Hm. destruct a0 as [| |a0 k|v| | |]; try discriminate Hm.
+    + intros Gn Hm Gv HG. unfold szb, szb_ in Hm. rewrite orb_false_r in Hm. cbn [szb0_] in Hm. destruct a0 as [| |a0 k|v| | |]; try discriminate Hm.
       destruct a0 as [[]| | | | | |]; try discriminate Hm. destruct k as [k|]; try discriminate Hm.
       apply andb_prop in Hm as [Hk Hc].
       apply (RTG_sized Gv k _ (fun x => CPadded x c a2)); [apply sz_padded, I1, Hc|]. apply memb_in. rewrite HG. exact Hk.
@@ -435,7 +571,7 @@ Proof.
   - (* FixedSized *) destruct IHc as (I1 & _ & _ & _). apply Both; [intros; discriminate| |intros e; destruct a0 as [| | |v| | |]; try reflexivity; destruct v; reflexivity|].
     + intros Hfr. cbn [dfrag] in Hfr. destruct a0; try discriminate. destruct v; try discriminate.
       apply andb_prop in Hfr as [Hn Hc]. apply RT_fixedsized; [lia|]. apply I1, Hc.
-    + intros Gn Hm Gv HG. cbn [szb] in Hm. destruct a0 as [| |a0 k|v| | |]; try discriminate Hm.
+    + intros Gn Hm Gv HG. unfold szb, szb_ in Hm. rewrite orb_false_r in Hm. cbn [szb0_] in Hm. destruct a0 as [| |a0 k|v| | |]; try discriminate Hm.
       destruct a0 as [[]| | | | | |]; try discriminate Hm. destruct k as [k|]; try discriminate Hm.
       apply andb_prop in Hm as [Hk Hc].
       apply (RTG_sized Gv k _ (fun x => CFixedSized x c)); [apply sz_fixed, I1, Hc|]. apply memb_in. rewrite HG. exact Hk.
@@ -476,3 +612,20 @@ Example ex_dep_runs :
                   ([x74], VInt 9)] in
   exists r out, build_bytes ex_dep v [] = Ok (r, out) /\ length out = 13 /\ exists r', parse_bytes ex_dep [] out = Ok r' /\ vle r' r = true.
 Proof. eexists. eexists. split; [vm_compute; reflexivity|]. split; [reflexivity|]. eexists. split; [vm_compute; reflexivity|vm_compute; reflexivity]. Qed.
+
+(* a tag-length-value record: the payload is CHOSEN by the tag and SIZED by the length *)
+Definition ex_tlv : con :=
+  CStruct [CRenamed [x74] (CFormat Big FB);
+           CRenamed [x6e] (CFormat Big FB);
+           CRenamed [x76] (CSwitch (this_ [x74]) [(VInt 1, CBytes (this_ [x6e])); (VInt 2, CArray (this_ [x6e]) (CFormat Big FH))] CPass);
+           CRenamed [x66] (CIfThenElse (this_ [x74]) CVarInt CPass)].
+
+Lemma ex_tlv_in_fragment : dfrag false ex_tlv = true.
+Proof. reflexivity. Qed.
+
+Lemma ex_tlv_runs :
+  match build_bytes ex_tlv (VDict [([x74], VInt 2); ([x6e], VInt 2); ([x76], VList [VInt 258; VInt 3]); ([x66], VInt 300)]) [] with
+  | Ok (r, out) => match parse_bytes ex_tlv [] out with Ok r' => vle r' r && bytes_eqb out [x02; x02; x01; x02; x00; x03; xac; x02] | _ => false end
+  | _ => false
+  end = true.
+Proof. vm_compute. reflexivity. Qed.
